@@ -1,7 +1,7 @@
 (* Entry points of the executable model, by name. One dispatcher so that the OCaml driver and
    the in-Coq case files need no per-function glue. *)
 From Coq Require Import ZArith NArith List String Bool.
-From Sia Require Import Prim.Result Prim.Tok Currency.Model Merkle.Tree Merkle.Forest Merkle.Acc Merkle.Rhp Policy.Model Pow.Model Codec.Schema Codec.Shape Codec.Irregular Gen.Schemas Ledger.Types Ledger.Mid Ledger.Validate Ledger.Apply Hash.Ids Merkle.Multi Gateway.Outline Rhp4.Model.
+From Sia Require Import Prim.Result Prim.Tok Currency.Model Merkle.Tree Merkle.Forest Merkle.Acc Merkle.Rhp Policy.Model Pow.Model Codec.Schema Codec.Shape Codec.Irregular Gen.Schemas Ledger.Types Ledger.Mid Ledger.Validate Ledger.Apply Hash.Ids Merkle.Multi Gateway.Outline Rhp4.Model Codec.Size Gen.Limits Codec.Framing.
 Import ListNotations.
 Open Scope string_scope.
 Open Scope list_scope.
@@ -252,6 +252,37 @@ Section Dispatch.
       end
     | _ => None
     end.
+
+
+  (* ---- C19: sizes and framing ---- *)
+  Definition api_c19 (name : string) (args : list tok) : option (list tok) :=
+    if name =? "c19.maxsize" then
+      option_map (fun '(tn, lims) =>
+        let n := string_of_bytes tn in
+        match object_size n lims, receiver_limit n with
+        | Some sz, Some lim => [TZ 0; tN sz; tN lim]
+        | _, _ => [TZ 3]
+        end) (run_parser (let* tn := pB in let* lims := plist pN in pret (tn, lims)) args)
+    else if name =? "c19.frame" then
+      (* ReadRequest / ReadResponse of the named object on a stream: 0 decoded, 1 rejected *)
+      option_map (fun (x : bytes * bool * bytes) => let '(tn, resp, stream) := x in
+        let n := string_of_bytes tn in
+        match find_type n gen_types, find_type "rhp/v4.RPCError" gen_types, receiver_limit n, lookupN n gen_maxlen with
+        | Some (_, d), Some (_, de), Some lim, Some ml =>
+          match to_schema d, to_schema de with
+          | Some so, Some se =>
+            if resp then
+              match read_response recog (N.to_nat (N.min lim (N.of_nat (List.length stream)))) se so stream with
+              | Some (inl _, _) => [TZ 2]        (* delivered as an error *)
+              | Some (inr _, _) => [TZ 0]
+              | None => [TZ 1]
+              end
+            else match read_limited recog (N.to_nat (N.min ml (N.of_nat (List.length stream)))) so stream with Some _ => [TZ 0] | None => [TZ 1] end
+          | _, _ => [TZ 3]
+          end
+        | _, _, _, _ => [TZ 3]
+        end) (run_parser (let* tn := pB in let* resp := pbool in let* st := pB in pret (tn, resp, st)) args)
+    else None.
 
   (* ---- ledger ---- *)
   Definition p_sco : parser sco := let* v := pZ in let* a := pB in pret {| sco_value := v; sco_addr := a |}.
@@ -506,6 +537,9 @@ Section Dispatch.
     match api_c17 name args with
     | Some r => r
     | None =>
+    match api_c19 name args with
+    | Some r => r
+    | None =>
     match name, args with
     | "hash", [TB b] => [TB (H b)]
     | "c12.derive", [TB nm; TB i; TZ k] => [TB (derive H nm (id_index_args i (Z.to_N k)))]
@@ -515,5 +549,5 @@ Section Dispatch.
     | "c05.leafhash", [TB e; TZ i; TZ s] => [TB (leaf_hash H (mkLeaf e (Z.to_N i) (negb (Z.eqb s 0))))]
     | "c05.proofroot", TB x :: TZ i :: ps => [TB (proofRootN H x (Z.to_N i) (List.concat (map (fun t => match t with TB b => [b] | _ => [] end) ps)))]
     | _, _ => bad_args
-    end end end end end end end end end.
+    end end end end end end end end end end.
 End Dispatch.
